@@ -1237,6 +1237,72 @@ max = amax          # noqa: A001  (numpy exports np.max / np.min)
 min = amin          # noqa: A001
 
 
+def argmax(a, axis=None):
+    """Index of the first maximum (first True of a boolean array)."""
+    if axis is not None:
+        raise Unsupported("np.argmax with an axis")
+    if isinstance(a, BoolArray):
+        for i, v in enumerate(a.vals):
+            if bool(v):
+                return i
+        return 0
+    vals = asarray(a).values()
+    best = 0
+    for i in range(1, len(vals)):
+        if vals[i] > vals[best]:
+            best = i
+    return best
+
+
+def argmin(a, axis=None):
+    if axis is not None:
+        raise Unsupported("np.argmin with an axis")
+    if isinstance(a, BoolArray):
+        for i, v in enumerate(a.vals):
+            if not bool(v):
+                return i
+        return 0
+    vals = asarray(a).values()
+    best = 0
+    for i in range(1, len(vals)):
+        if vals[i] < vals[best]:
+            best = i
+    return best
+
+
+def flatnonzero(a):
+    if isinstance(a, BoolArray):
+        return [i for i, v in enumerate(a.vals) if bool(v)]
+    return [i for i, v in enumerate(asarray(a).values()) if bool(v != 0)]
+
+
+def count_nonzero(a, axis=None):
+    return len(flatnonzero(a))
+
+
+def block(arrays):
+    """np.block for a list (one row of blocks) or a list of lists (rows of blocks) of scalars / 1-d / 2-d arrays."""
+    def as2d(x):
+        x = x if isinstance(x, ndarray) else array(x)
+        if x.ndim == 0:
+            return x.reshape(1, 1)
+        if x.ndim == 1:
+            return x.reshape(1, x.shape[0])
+        if x.ndim == 2:
+            return x
+        raise Unsupported("np.block of an array with more than two dimensions")
+    if not isinstance(arrays, list):
+        raise Unsupported("np.block of a non-list")
+    if arrays and all(not isinstance(x, list) for x in arrays):
+        if all((isinstance(x, ndarray) and x.ndim <= 1) or not isinstance(x, ndarray) for x in arrays):
+            return concatenate([x if isinstance(x, ndarray) and x.ndim == 1 else array([x]) for x in arrays])
+        return concatenate([as2d(x) for x in arrays], axis=1)
+    if arrays and all(isinstance(row, list) for row in arrays):
+        rows = [concatenate([as2d(x) for x in row], axis=1) for row in arrays]
+        return concatenate(rows, axis=0)
+    raise Unsupported("np.block with mixed nesting")
+
+
 def logical_not(x):
     if isinstance(x, BoolArray):
         return ~x
